@@ -272,4 +272,139 @@ theorem rbc_totality_refuted :
   obtain ⟨evs, s, hrun, hall, hset, _, hdl, hno⟩ := Swallow.swallow_breaks
   exact hno (h _ _ _ Cx.hypFifo evs s hrun hall hset 0 2 _ _ (by decide) (by decide) hdl)
 
+/-! ### (2) the length check on digests: with `T tag = 0` (text length 1) and `H v = 200001`
+    (three base-62 digits) every r-echo is dropped as over-long; all messages are consumed,
+    nothing is ever delivered. -/
+namespace LenCx
+open Cx
+
+def lT : Tag → Int := fun _ => 0
+def lenEvents : List Event := [.bcast 0 100000 0] ++ sends 1 100000 ++ echoes 1 100000
+def slot1 : Tag := ⟨7, 0, 1⟩
+
+theorem len_check : (run cH lT cFifo lenEvents).map (fun s =>
+    chkConsumed cH lT cFifo lenEvents s && chkSettled cH lT cFifo s &&
+    decide ((0, slot1, (100000 : Int)) ∈ s.bc) && decide (s.dl = [])) = some true := by decide
+
+theorem not_lenOk : ¬ LenOk lT slot1 (cH 100000) := by unfold LenOk; decide
+
+theorem long_digest_breaks : ∃ evs s, run cH lT cFifo evs = some s ∧
+    AllConsumed cH lT cFifo evs s ∧ Settled cH lT cFifo s ∧
+    (0, slot1, (100000 : Int)) ∈ s.bc ∧ s.dl = [] := by
+  obtain ⟨s, hrun, hP⟩ := run_check len_check
+  simp only [Bool.and_eq_true, decide_eq_true_eq] at hP
+  obtain ⟨⟨⟨h1, h2⟩, h3⟩, h4⟩ := hP
+  exact ⟨lenEvents, s, hrun, chkConsumed_sound h1, chkSettled_sound h2, h3, h4⟩
+
+end LenCx
+
+/-! ### (3a) non-FIFO mode, a tag used twice: the honest sender draws the sequence number 9 for
+    the values 5 and 6; all parties deliver 5, the r-send of 6 is filtered as a duplicate. -/
+namespace DupCx
+open Cx
+
+def dupEvents : List Event :=
+  [.bcast 0 5 9, .bcast 0 6 9] ++ sends 9 5 ++ echoes 9 5 ++ readies 9 5 ++ sends 9 6
+def tag9 : Tag := ⟨7, 0, 9⟩
+
+theorem dup_check : (run cH cT cNon dupEvents).map (fun s =>
+    chkConsumed cH cT cNon dupEvents s && chkSettled cH cT cNon s &&
+    decide ((0, tag9, (6 : Int)) ∈ s.bc) && decide ((1, tag9, (6 : Int)) ∉ s.dl)) = some true := by
+  decide
+
+theorem reused_tag_breaks : ∃ evs s, run cH cT cNon evs = some s ∧
+    AllConsumed cH cT cNon evs s ∧ Settled cH cT cNon s ∧
+    (0, tag9, (6 : Int)) ∈ s.bc ∧ (1, tag9, (6 : Int)) ∉ s.dl := by
+  obtain ⟨s, hrun, hP⟩ := run_check dup_check
+  simp only [Bool.and_eq_true, decide_eq_true_eq] at hP
+  obtain ⟨⟨⟨h1, h2⟩, h3⟩, h4⟩ := hP
+  exact ⟨dupEvents, s, hrun, chkConsumed_sound h1, chkSettled_sound h2, h3, h4⟩
+
+end DupCx
+
+/-! ### (3b) non-FIFO mode, sequence number 0: the r-send is dropped as malformed (`seq < 1`). -/
+namespace SeqCx
+open Cx
+
+def seqEvents : List Event := [.bcast 0 5 0] ++ sends 0 5
+def tag0 : Tag := ⟨7, 0, 0⟩
+
+theorem seq_check : (run cH cT cNon seqEvents).map (fun s =>
+    chkConsumed cH cT cNon seqEvents s && chkSettled cH cT cNon s &&
+    decide ((0, tag0, (5 : Int)) ∈ s.bc) && decide (s.dl = [])) = some true := by decide
+
+theorem seq_zero_breaks : ∃ evs s, run cH cT cNon evs = some s ∧
+    AllConsumed cH cT cNon evs s ∧ Settled cH cT cNon s ∧
+    (0, tag0, (5 : Int)) ∈ s.bc ∧ s.dl = [] := by
+  obtain ⟨s, hrun, hP⟩ := run_check seq_check
+  simp only [Bool.and_eq_true, decide_eq_true_eq] at hP
+  obtain ⟨⟨⟨h1, h2⟩, h3⟩, h4⟩ := hP
+  exact ⟨seqEvents, s, hrun, chkConsumed_sound h1, chkSettled_sound h2, h3, h4⟩
+
+end SeqCx
+
+/-! ## non-vacuity -/
+namespace NonVac
+open Example
+
+/-- the example run of RbcGlobal (equivocating Byzantine sender 3), extended by the hand-overs
+    that were missing: party 2's echoes of the other value, the r-requests to parties 1 and 2,
+    their r-answers -/
+def nvEvents : List Event := exEvents ++
+  [ .recv 0 2 (mE 200) [], .recv 1 2 (mE 200) [], .recv 2 2 (mE 200) [],
+    .recv 1 2 (mQ 100) [], .recv 2 2 (mQ 100) [], .recv 2 1 (mA 100) [], .recv 2 2 (mA 100) [] ]
+
+theorem nv_check : (run exH exT exC nvEvents).map (fun s =>
+    chkHanded exC nvEvents s && chkConsumed exH exT exC nvEvents s && chkSettled exH exT exC s &&
+    decide (s.dl = [(0, ⟨7, 3, 1⟩, 100), (1, ⟨7, 3, 1⟩, 100), (2, ⟨7, 3, 1⟩, 100)])) = some true := by
+  decide
+
+end NonVac
+
+/-- non-vacuity: the example run of RbcGlobal (equivocating Byzantine sender, all three honest
+    parties deliver 100), extended by the missing hand-overs, satisfies the premises — those of
+    the first formulation and the corrected one (`AllConsumed`) -/
+example : ∃ evs s, run Example.exH Example.exT Example.exC evs = some s ∧
+    AllHandedOver Example.exC evs s ∧ AllConsumed Example.exH Example.exT Example.exC evs s ∧
+    Settled Example.exH Example.exT Example.exC s ∧ s.dl ≠ [] := by
+  obtain ⟨s, hrun, hP⟩ := run_check NonVac.nv_check
+  simp only [Bool.and_eq_true, decide_eq_true_eq] at hP
+  obtain ⟨⟨⟨h1, h2⟩, h3⟩, h4⟩ := hP
+  exact ⟨NonVac.nvEvents, s, hrun, chkHanded_sound h1, chkConsumed_sound h2, chkSettled_sound h3,
+    by rw [h4]; simp⟩
+
+/-! non-vacuity of validity: an honest broadcast in FIFO mode, everything consumed; all premises
+    of `rbc_validity'` hold and the theorem yields the three deliveries -/
+namespace NonVacV
+open Cx
+
+def vEvents : List Event := [.bcast 0 11 0] ++ sends 1 11 ++ echoes 1 11 ++ readies 1 11
+def slot1 : Tag := ⟨7, 0, 1⟩
+
+theorem v_check : (run cH cT cFifo vEvents).map (fun s =>
+    chkConsumed cH cT cFifo vEvents s && chkSettled cH cT cFifo s &&
+    decide (s.bc = [(0, slot1, (11 : Int))])) = some true := by decide
+
+theorem lenOk11 : LenOk cT slot1 (cH 11) := by unfold LenOk; decide
+
+theorem all_deliver : ∃ s, run cH cT cFifo vEvents = some s ∧
+    (0, slot1, (11 : Int)) ∈ s.dl ∧ (1, slot1, (11 : Int)) ∈ s.dl ∧ (2, slot1, (11 : Int)) ∈ s.dl := by
+  obtain ⟨s, hrun, hP⟩ := run_check v_check
+  simp only [Bool.and_eq_true, decide_eq_true_eq] at hP
+  obtain ⟨⟨h1, h2⟩, h3⟩ := hP
+  have hb : (0, slot1, (11 : Int)) ∈ s.bc := by rw [h3]; exact List.mem_singleton.2 rfl
+  have key : ∀ i, cFifo.honest i → (i, slot1, (11 : Int)) ∈ s.dl := fun i hi =>
+    rbc_validity' hypFifo hrun (chkConsumed_sound h1) (chkSettled_sound h2) (k := 0) (by decide) hb
+      lenOk11
+      (by
+        intro _ τ' v' hb' hlt
+        rw [h3, List.mem_singleton] at hb'
+        simp only [Prod.mk.injEq] at hb'
+        rw [hb'.2.1] at hlt
+        exact absurd hlt (lt_irrefl _))
+      (by intro hf; cases hf) hi
+  exact ⟨s, hrun, key 0 (by decide), key 1 (by decide), key 2 (by decide)⟩
+
+end NonVacV
+
 end Tmcg.Rbc
